@@ -405,7 +405,7 @@ def params(tier):
     if tier == 'quick':
         return {'examples': 700, 'wall': 90, 'case_timeout': 60}
 
-    return {'examples': 9000, 'wall': 1500, 'case_timeout': 120}
+    return {'examples': 9000, 'wall': 600, 'case_timeout': 120}
 
 
 def floors(tier):
